@@ -3,6 +3,7 @@ from __future__ import annotations
 
 import math
 import random
+from decimal import Decimal
 import re
 import struct
 from typing import Any
@@ -40,7 +41,10 @@ MANIFEST = dict(
          'hold, and the pitch, reified, is atan2(-forward.z, horizontal length) in both branches (total, no asin of a '
          'rounded entry); the expression trees of _vec_rot and _mat_mul evaluated with binary64 rounding after every + - * '
          'are within 2e-15 (unit inputs; 2e-9 for vector components up to 1e6) of their real value for all matrices with '
-         'entries up to 1.000001 (running error analysis proved sound for every tree and rounding; binary64 by Flocq); '
+         'entries up to 1.000001 (running error analysis proved sound for every tree and rounding; binary64 by Flocq); the '
+         'binary64 arithmetic of from_angle on sin / cos values within d of the real ones gives entries within tol of the exact '
+         'rotation and at most 1 + tol in absolute value (1e-15 for d = 0, 3e-14 for d = 5e-15; libm accuracy is a visible '
+         'hypothesis, measured on sampled angles with 50-digit arithmetic); '
          'for every (operator form, left class, right class, same-object?) the dispatch table generated from '
          '__matmul__/__rmatmul__/__imatmul__ returns the specification product, a fresh result and unchanged operands '
          '(kernel-checked table_ok = true + generic soundness theorem).  The trees, the table and the inverse program are '
@@ -48,7 +52,7 @@ MANIFEST = dict(
          '1e-9*max(1,|v|).',
     note='Exact real arithmetic except for the rounding theorems of _vec_rot/_mat_mul (rounded-real model of binary64: round '
          'to nearest even after every operation, underflow included, overflow excluded; tied to CPython floats by a bit-exact '
-         'correspondence on sampled inputs); for from_angle, _to_angle and inverse() floating-point rounding is outside the '
+         'correspondence on sampled inputs) and of the arithmetic of from_angle given libm accuracy; for _to_angle and inverse() floating-point rounding is outside the '
          'theorems (the property says "up to rounding"); the binary64 instance of the Gauss-Jordan interpreter is used only '
          'for the correspondence.  Axioms: the classical-reals axioms of Coq.Reals, plus Classical_Prop.classic through Flocq '
          'for the rounding theorems.  Trusted: translate/c04_formulas.py, translate/c04_inverse.py (symbolic executors / loop '
@@ -915,14 +919,68 @@ def corr_rounding(ck: Ck) -> None:
                         bad.append({'formula': nm, 'entry': k, 'inputs': fenv, 'float': fl, 'rounding_model': float(model),
                                     'error': float(abs(model - exact)), 'bound': float(bound)})
         ck.seen(('rounding', tuple(A), tuple(B), v))
+    # from_angle: the arithmetic over the libm results (rounded-real model vs floats, bit for bit), and the distance of the libm
+    # results from the real sin / cos of the real angle (50-digit decimal arithmetic): the hypothesis of c04_from_angle_binary64_error
+    ins, fts = trr.from_angle_trees()
+    worst_in = 0.0
+    for i in range(n):
+        (p, y, r), acls = gen_angle(ck.rng)
+        aenv = {'pitch': p, 'yaw': y, 'roll': r}
+        vals = [tr.py_eval(ir, aenv) for ir in ins]
+        fenv = {f'in.{k}': v for k, v in enumerate(vals)}
+        qenv = {k: Fraction(x) for k, x in fenv.items()}
+        benv = {k: abs(x) for k, x in qenv.items()}
+        for ir, v in zip(ins, vals):
+            deg = aenv[ir[2][2][1]] if ir[2][0] == 'call' and ir[2][1] == 'radians' and ir[2][2][0] == 'var' else None
+            if deg is not None:
+                worst_in = max(worst_in, abs(float(hp_sin_cos(deg)[0 if ir[1] == 'sin' else 1] - Decimal(v))))
+        for k, ir in enumerate(fts):
+            ck.count('rounding_model_evaluations')
+            fl = tr.py_eval(ir, fenv)
+            model = trr.rounded_eval(ir, qenv)
+            exact = trr.exact_eval(ir, qenv)
+            _, bound = trr.err_bound(ir, benv)
+            if bound > 0:
+                worst = max(worst, abs(model - exact) / bound)
+            if (bits(float(model)) != bits(fl) and not (model == 0 and fl == 0)) or abs(model - exact) > bound:
+                if len(bad) < 5:
+                    bad.append({'formula': 'from_angle', 'entry': k, 'inputs': fenv, 'float': fl, 'rounding_model': float(model),
+                                'error': float(abs(model - exact)), 'bound': float(bound)})
+        ck.seen(('rounding-from-angle', p, y, r))
     ck.extra['rounding_worst_error_over_bound'] = float(worst)
+    ck.extra['from_angle_worst_sin_cos_input_error'] = worst_in
     ck.obligation('correspondence:rounding-model', not bad,
-                  f'{n} input sets x 12 trees: exact-rational evaluation with a correctly rounded binary64 conversion after every '
-                  f'+ - * (fe_fl rnd64) vs CPython float evaluation bit for bit, and |rounded - exact| <= fe_err: {len(bad)}+ '
-                  f'disagreements; largest observed error / bound = {float(worst):.3f}')
+                  f'{n} input sets x 12 trees + {n} angles x 9 from_angle trees: exact-rational evaluation with a correctly rounded '
+                  f'binary64 conversion after every + - * (fe_fl rnd64) vs CPython float evaluation bit for bit, and |rounded - exact| '
+                  f'<= fe_err: {len(bad)}+ disagreements; largest observed error / bound = {float(worst):.3f}')
+    ck.obligation('correspondence:from-angle-inputs', worst_in <= 5e-15,
+                  f'{n} angle triples in [-720, 720]: math.sin/cos(math.radians(x)) vs the real sin / cos of x degrees (50 digits): '
+                  f'largest distance {worst_in:.3g} (hypothesis of c04_from_angle_binary64_error instantiated with 5e-15)')
     if bad:
         ck.tie_broken.append('correspondence rounding model (fe_fl rnd64 vs CPython floats)')
         ck.extra['rounding_disagreements'] = bad
+
+
+_PI50 = '3.14159265358979323846264338327950288419716939937510582097494'
+
+
+def hp_sin_cos(deg: float):
+    """(sin, cos) of `deg` degrees (the exact value of the float) with about 50 correct digits: Taylor series in decimal
+    arithmetic after reduction modulo 360 degrees (exact: Decimal(float) and the remainder are exact)."""
+    import decimal
+    with decimal.localcontext() as ctx:
+        ctx.prec = 60
+        d = Decimal(deg) % Decimal(360)
+        x = d * Decimal(_PI50) / Decimal(180)
+        sn, cs, term, k = Decimal(0), Decimal(0), Decimal(1), 0
+        while abs(term) > Decimal(10) ** -58 or k < 4:
+            if k % 2 == 0:
+                cs += term if k % 4 == 0 else -term
+            else:
+                sn += term if k % 4 == 1 else -term
+            k += 1
+            term = term * x / k
+        return +sn, +cs
 
 
 # =============================================================================================== main
@@ -1014,6 +1072,10 @@ def run(ck: Ck) -> None:
                 'errs_within (1000001 # 1000000) 1000000 (2 # 1000000000) vec_rot_fe',
             'mat_mul_rounding_error_below_2e-15_on_rotations': 'errs_within (1000001 # 1000000) 0 (2 # 1000000000000000) mat_mul_fe',
             'rounded_trees_are_float_computations': 'forallb (fun e => Nat.ltb 0 (fe_ops e)) (vec_rot_fe ++ mat_mul_fe)',
+            # from_angle: the arithmetic alone (exact sin / cos values), and with libm's values within 5e-15 of the real sin / cos
+            'from_angle_arithmetic_rounding_error_below_1e-15': 'errs_within_in 1 0 (1 # 1000000000000000) from_angle_fe',
+            'from_angle_error_below_3e-14_given_sin_cos_within_5e-15':
+                'errs_within_in 1 (5 # 1000000000000000) (3 # 100000000000000) from_angle_fe',
         })
     if ok_i and models:
         # gj_prog_ok: what inverse() returns when it returns; gj_total_ok (Rot/RotGJTotal.v, interval / determinant abstract
@@ -1079,7 +1141,8 @@ def run(ck: Ck) -> None:
         # the translator could not read inverse() (fail closed) AND the search exhibits a concrete wrong inverse
         ck.explain('translate:RotInverse_gen')
     # a changed _vec_rot / _mat_mul tree changes its error bound too: explained by the concrete wrong value
-    for fn, pref in (('_vec_rot', 'instance:vec_rot_rounding'), ('_mat_mul', 'instance:mat_mul_rounding')):
+    for fn, pref in (('_vec_rot', 'instance:vec_rot_rounding'), ('_mat_mul', 'instance:mat_mul_rounding'),
+                     ('from_angle', 'instance:from_angle_')):
         if any(k.startswith(FUNCTION_EXPLAINED_BY[fn]) for k in keys):
             ck.explain(pref)
     explain_translate(ck, keys)
